@@ -537,6 +537,21 @@ func c24(r *Run) {
 			r.missing("C24.R7", "Fetch:shape", "blockers / waiter stores or tx registration not found")
 		}
 	}
+	// waiters are tracked per Fetch call: a block may carry one transaction ID twice (replay protection is off when
+	// re-processing), and a record shared through the ID map would be decremented twice per key
+	if p := w.Pkgs[pkgFetcher]; p != nil {
+		okW := false
+		if tn, ok := p.Types.Scope().Lookup("key").(*types.TypeName); ok {
+			if st, ok := tn.Type().Underlying().(*types.Struct); ok {
+				for i := 0; i < st.NumFields(); i++ {
+					if st.Field(i).Name() == "blocked" {
+						okW = strings.HasSuffix(st.Field(i).Type().String(), "[]*"+pkgFetcher+".tx")
+					}
+				}
+			}
+		}
+		r.check(okW, "C24.R7", "key.blocked:per-call-records", pkgFetcher, "[]*tx", "the waiters of a key are recorded by transaction ID: a second Fetch with the same ID shares (and overwrites) the first call's record, which then reaches zero before all keys were read")
+	}
 	fw := r.fn(w, "C24.R7", "(*"+pkgFetcher+".Fetcher).Wait")
 	if fw != nil {
 		wg := findEffects(fw, "call (*sync.WaitGroup).Wait(p0.wg)")
